@@ -10,12 +10,14 @@
                                  parsing flag of everything that existed before as they were
     accept_keeps_flags           (the other path) an accepted text leaves all flags and the exec depth as before
     null_tuple_symbol_restored   a symbol typed from a null tuple value (no decl) keeps its type (repaired: /repo 353443e)
-    reject_restores_functions    FALSE on this tree — negation proved at the minimal witness of a COMPLETE redefinition
-                                 that survives the rejection of a later statement —
-    failed_redefinition_rolled_back_{not_last,after_new}   the former witnesses of the rollback defect, now positive
+    reject_restores_functions    for EVERY event sequence and EVERY context: after a rejected text the function table IS
+                                 the table of the start of the parse (names, arities, functor identities, bodies, no
+                                 entry more): `parsingRevert` undoes the journal (repaired: the former finding
+                                 C11.complete_redefinition_survives_reject)
+    complete_redefinition_reverted_witness   the former negation witness, with its new outcome
+    failed_redefinition_rolled_back_{not_last,after_new}   the former witnesses of the rollback defect, positive
                                  (repaired: /repo 3e9e0ba)
-    reject_restores_functions_partial   holds for texts that do not COMPLETE a redefinition of a function that
-                                 existed before the text (failed redefinitions anywhere in the table are covered)
+    reject_restores_functions_partial   corollary in the old form (prefix preserved), without its proviso
     context_usable_after_reject  after a rejected text the context is idle again and, when the text introduced
                                  no name, it IS the context before (so every later parse behaves identically)
 -/
@@ -102,7 +104,7 @@ theorem clause_flags_restored (H : Decl → Nat) (st st' : St) (e : Ev) (fr : Fr
 
 /-- the hypotheses of `clause_flags_restored` are satisfiable: a FORALL over a plain table variable -/
 def exClauseSt : St :=
-  ⟨⟨["E", "T"], [(⟨2, 0, 0⟩, []), (⟨2, 0, 1⟩, [])], [(false, false), (false, false)], [], 0, true, [], none⟩, [], none⟩
+  ⟨⟨["E", "T"], [(⟨2, 0, 0⟩, []), (⟨2, 0, 1⟩, [])], [(false, false), (false, false)], [], 0, true, [], none⟩, [], none, 0, []⟩
 
 example : (match step (fun _ => 0) exClauseSt (.enterForall 0 (some 1)) with
     | .ok st' => st'.stack == [.forallC 0 false false (some (1, false))] && st'.ctx.fls == [(true, false), (false, true)]
@@ -243,12 +245,6 @@ example : (parseText (fun _ => 0) ⟨["I"], [(⟨2, 0, 0⟩, [])], [(false, fals
 
 /-! ## functions -/
 
-/-- the full statement about functions — FALSE for the code as it is:
-
-      ∀ H c0 c' evs, c0.idle → parseText H c0 evs = .reject c' → FnsPreserved c0 c'
-
-  (1) a COMPLETE redefinition of an existing function earlier in the rejected text stays installed:
-      `function f(x) return integer is begin return 10; end; z = ;` -/
 def wF : Ctx := ⟨[], [], [], [], 0, false, [⟨"F", 1, 100, true⟩], none⟩
 def wFG : Ctx := ⟨[], [], [], [], 0, false, [⟨"F", 1, 100, true⟩, ⟨"G", 1, 101, true⟩], none⟩
 def wGF : Ctx := ⟨[], [], [], [], 0, false, [⟨"G", 1, 101, true⟩, ⟨"F", 1, 100, true⟩], none⟩
@@ -256,11 +252,62 @@ def wGF : Ctx := ⟨[], [], [], [], 0, false, [⟨"G", 1, 101, true⟩, ⟨"F", 
 /-- the Spec clause evaluated on the outcome of a parse: `some true` = rejected and functions preserved -/
 def fnsKept (c0 : Ctx) (o : Outcome) : Option Bool := o.rejected.map fun c' => decide (FnsPreserved c0 c')
 
-theorem reject_restores_functions_false_complete_redefinition :
-    wF.idle = true ∧ wF.coherent (fun _ => 0) = true ∧
-    fnsKept wF (parseText (fun _ => 0) wF [.fnBegin "F" 1 200, .leave, .fail]) = some false ∧
-    (parseText (fun _ => 0) wF [.fnBegin "F" 1 200, .leave, .fail]).rejected.map (·.fns) = some [⟨"F", 1, 200, true⟩] := by
+/-- **reject_restores_functions.** For EVERY event sequence — new declarations, complete and failed redefinitions of
+pre-existing functions and of functions the text itself declared, in any order, the error anywhere — and EVERY context
+(no hypothesis at all): after the rejection the function table IS the table the parse started with: same entries at the
+same positions, same functor identity (`fid`), same body (callability), and no entry more. `parsingRevert` removes what
+was appended behind the mark and puts every replaced functor back, newest journal entry first. -/
+theorem reject_restores_functions (H : Decl → Nat) (c0 c' : Ctx) (evs : List Ev)
+    (hrej : parseText H c0 evs = .reject c') : c'.fns = c0.fns := by
+  unfold parseText at hrej
+  have hinv := jinv_run (H := H) evs (jinv_init c0)
+  generalize runEvents H (St.init c0) evs = res at hrej hinv
+  obtain ⟨threw, st⟩ := res
+  simp only at hrej hinv
+  split at hrej
+  · cases hrej; exact jinv_reject hinv
+  · cases hrej
+
+/-- in the words of the Spec -/
+theorem reject_restores_functions_spec (H : Decl → Nat) (c0 c' : Ctx) (evs : List Ev)
+    (hrej : parseText H c0 evs = .reject c') : FnsPreserved c0 c' := by
+  unfold FnsPreserved
+  rw [reject_restores_functions H c0 c' evs hrej, List.take_length]
+
+/-- satisfiable, non-trivially: `g` (not the last entry) is redefined completely, a new `h` is declared and redefined,
+`f` is redefined completely twice, a redefinition of `g` is open when the text fails inside its body: at the throw every
+entry holds another functor, the journal has four entries; afterwards the table is the old one -/
+def exJournalEvs : List Ev :=
+  [.fnBegin "G" 1 200, .leave, .fnBegin "H" 0 201, .leave, .fnBegin "H" 0 202, .leave, .fnBegin "F" 1 203, .leave,
+   .fnBegin "F" 1 204, .leave, .fnBegin "G" 1 205, .enterBlk, .fail]
+
+example : (runEvents (fun _ => 0) (St.init wFG) exJournalEvs).2.ctx.fns =
+      [⟨"F", 1, 204, true⟩, ⟨"G", 1, 205, false⟩, ⟨"H", 0, 202, true⟩] ∧
+    (runEvents (fun _ => 0) (St.init wFG) exJournalEvs).2.journal =
+      [(1, ⟨"G", 1, 200, true⟩), (0, ⟨"F", 1, 203, true⟩), (0, ⟨"F", 1, 100, true⟩), (2, ⟨"H", 0, 201, true⟩), (1, ⟨"G", 1, 101, true⟩)] ∧
+    (parseText (fun _ => 0) wFG exJournalEvs).rejected.map (·.fns) = some wFG.fns := by
   decide
+
+/-- the order of the undo loop matters (what a patch that undoes the journal oldest-first would do): `f` redefined twice -/
+def revertFnsOldestFirst (mark : Nat) (journal : List (Nat × Fn)) (fns : List Fn) : List Fn :=
+  revertFns mark journal.reverse fns
+
+example : revertFns 1 [(0, ⟨"F", 1, 203, true⟩), (0, ⟨"F", 1, 100, true⟩)] [⟨"F", 1, 204, true⟩] = wF.fns ∧
+    revertFnsOldestFirst 1 [(0, ⟨"F", 1, 203, true⟩), (0, ⟨"F", 1, 100, true⟩)] [⟨"F", 1, 204, true⟩] = [⟨"F", 1, 203, true⟩] := by
+  decide
+
+/-- **the former negation witness, with its new outcome** (finding C11.complete_redefinition_survives_reject, repaired):
+`function f(x) return integer is begin return 10; end; z = ;` on a context that has `f/1` — the complete redefinition
+installed at parse time (`fid` 200) is taken out again, `f` is the old functor 100 (it used to stay 200). -/
+theorem complete_redefinition_reverted_witness :
+    wF.idle = true ∧ wF.coherent (fun _ => 0) = true ∧
+    (runEvents (fun _ => 0) (St.init wF) [.fnBegin "F" 1 200, .leave]).2.ctx.fns = [⟨"F", 1, 200, true⟩] ∧
+    fnsKept wF (parseText (fun _ => 0) wF [.fnBegin "F" 1 200, .leave, .fail]) = some true ∧
+    (parseText (fun _ => 0) wF [.fnBegin "F" 1 200, .leave, .fail]).rejected.map (·.fns) = some [⟨"F", 1, 100, true⟩] := by
+  decide
+
+/-- an ACCEPTED text keeps its redefinition (the journal is dropped, not undone) -/
+example : (parseText (fun _ => 0) wF [.fnBegin "F" 1 200, .leave]).accepted.map (·.fns) = some [⟨"F", 1, 200, true⟩] := by decide
 
 /-- a FAILED redefinition of a function is rolled back wherever its entry is in the table (it used not to be unless
 the entry was the last: finding C11.failed_redefinition_not_rolled_back, repaired by /repo 3e9e0ba):
@@ -270,85 +317,52 @@ theorem failed_redefinition_rolled_back_not_last :
     (parseText (fun _ => 0) wFG [.fnBegin "F" 1 200, .fail]).rejected.map (·.fns) = some wFG.fns := by
   decide
 
-/-- … also when the text first declares a new function (which stays: outside the guarantee) -/
+/-- … also when the text first declares a new function — which no longer stays: a rejected text leaves no declaration -/
 theorem failed_redefinition_rolled_back_after_new :
     fnsKept wF (parseText (fun _ => 0) wF [.fnBegin "H" 0 150, .leave, .fnBegin "F" 1 200, .fail]) = some true ∧
     (parseText (fun _ => 0) wF [.fnBegin "H" 0 150, .leave, .fnBegin "F" 1 200, .fail]).rejected.map (·.fns)
-      = some [⟨"F", 1, 100, true⟩, ⟨"H", 0, 150, true⟩] := by
+      = some [⟨"F", 1, 100, true⟩] := by
   decide
 
 example : fnsKept wGF (parseText (fun _ => 0) wGF [.fnBegin "F" 1 200, .fail]) = some true := by decide
 
-/-- **reject_restores_functions_partial.** For EVERY event sequence that does not COMPLETE a redefinition of a
-function existing before the text (failed redefinitions, anywhere in the table, are allowed), and EVERY context:
-after the rejection every pre-existing function is at its position with its definition and its body. (Functions
-introduced by the text may stay, be replaced or be removed: they are outside the guarantee.) -/
+/-- **reject_restores_functions_partial** — the theorem of the unrepaired tree, now a corollary WITHOUT its proviso
+("the text does not complete a redefinition of a pre-existing function"): kept under its name for the manifest. -/
 theorem reject_restores_functions_partial (H : Decl → Nat) (c0 c' : Ctx) (evs : List Ev)
-    (hno : redefinitionCompleted H c0 (St.init c0) evs = false)
-    (hrej : parseText H c0 evs = .reject c') : FnsPreserved c0 c' := by
-  unfold parseText at hrej
-  have hinit : FInv c0 (St.init c0) :=
-    ⟨Nat.le_refl _, (by intro _; simp [St.init, parsingBegin]), (by intro ch h; cases h)⟩
-  have hinv := finv_run (H := H) evs hno hinit
-  generalize runEvents H (St.init c0) evs = res at hrej hinv
-  obtain ⟨threw, st⟩ := res
-  simp only at hrej hinv
-  split at hrej
-  · cases hrej
-    unfold FnsPreserved
-    obtain ⟨_, _, _, _, o5, _⟩ := unwindFrames_other st.stack
-      (match st.child with | some _ => rollbackCtx st.ctx | none => st.ctx)
-    have hun : (parsingEnd H (unwind st)).fns =
-        (match st.child with | some _ => rollbackCtx st.ctx | none => st.ctx).fns := by
-      simp only [parsingEnd, unwind]; exact o5
-    rw [hun]
-    cases hch : st.child with
-    | none => exact hinv.closed hch
-    | some ch => exact finv_rollback hinv ch hch
-  · cases hrej
+    (hrej : parseText H c0 evs = .reject c') : FnsPreserved c0 c' :=
+  reject_restores_functions_spec H c0 c' evs hrej
 
-/-- satisfiable, non-trivially: a text that declares a new function `h`, starts redefining the pre-existing `f`
-(not the last entry), fails inside its body -/
-example : redefinitionCompleted (fun _ => 0) wFG (St.init wFG)
-      [.fnBegin "H" 0 150, .leave, .fnBegin "F" 1 151, .enterBlk, .fail] = false ∧
-    (parseText (fun _ => 0) wFG [.fnBegin "H" 0 150, .leave, .fnBegin "F" 1 151, .enterBlk, .fail]).rejected.map (·.fns)
-      = some [⟨"F", 1, 100, true⟩, ⟨"G", 1, 101, true⟩, ⟨"H", 0, 150, true⟩] := by
-  decide
-
-/-- and the remaining witness is exactly outside its hypothesis -/
-example : redefinitionCompleted (fun _ => 0) wF (St.init wF) [.fnBegin "F" 1 200, .leave, .fail] = true := by
+/-- the former region of the finding is not empty: the witness completes a redefinition of a pre-existing function -/
+example : redefinitionCompleted (fun _ => 0) wF (St.init wF) [.fnBegin "F" 1 200, .leave, .fail] = true ∧
+    redefinitionCompleted (fun _ => 0) wFG (St.init wFG) exJournalEvs = true := by
   decide
 
 /-! ## usability -/
 
-/-- **context_usable_after_reject.** After a rejected text (that completes no redefinition of a pre-existing function) the
-context is idle again — not parsing, no pending backup, exec depth as before — everything pre-existing is as it
-was, and when the text introduced no new symbol and no new function the symbol table and function table ARE the
-ones before: so whatever is parsed next sees the same context (`parseText` is a function of it). -/
+/-- **context_usable_after_reject.** After a rejected text (ANY text) the context is idle again — not parsing, no pending
+backup, exec depth as before — everything pre-existing is as it was, the function table is the one before, and when the
+text introduced no new symbol the symbol table IS the one before: so whatever is parsed next sees the same context
+(`parseText` is a function of it). -/
 theorem context_usable_after_reject (H : Decl → Nat) (c0 c' : Ctx) (evs : List Ev)
     (hidle : c0.idle = true) (hcoh : c0.coherent H = true)
-    (hno : redefinitionCompleted H c0 (St.init c0) evs = false)
     (hrej : parseText H c0 evs = .reject c') :
-    c'.idle = true ∧ c'.exec = c0.exec ∧ SymsPreserved c0 c' ∧ FnsPreserved c0 c' ∧
+    c'.idle = true ∧ c'.exec = c0.exec ∧ SymsPreserved c0 c' ∧ c'.fns = c0.fns ∧
     (c'.names.length = c0.names.length → c'.tds.length = c0.tds.length → c'.fls.length = c0.fls.length →
-      c'.fns.length = c0.fns.length →
       c' = { c0 with fbacked := c'.fbacked } ∧
       ∀ evs2, parseText H c' evs2 = parseText H { c0 with fbacked := c'.fbacked } evs2) := by
   have hs := reject_restores_symbols H c0 c' evs hidle hcoh hrej
-  have hf := reject_restores_functions_partial H c0 c' evs hno hrej
+  have hf := reject_restores_functions H c0 c' evs hrej
   refine ⟨?_, hs.exec, hs, hf, ?_⟩
   · have hp : c0.parsing = false := by
       simp only [Ctx.idle, Bool.and_eq_true, Bool.not_eq_true'] at hidle; exact hidle.1
     simp [Ctx.idle, hs.backed, hs.parsing, hp]
-  · intro h1 h2 h3 h4
+  · intro h1 h2 h3
     have hb : c0.backed = [] := by
       simp only [Ctx.idle, Bool.and_eq_true, List.isEmpty_iff] at hidle; exact hidle.2
     have e1 := hs.names; have e2 := hs.types; have e3 := hs.flags
-    unfold FnsPreserved at hf
     rw [← h1, List.take_length] at e1
     rw [← h2, List.take_length] at e2
     rw [← h3, List.take_length] at e3
-    rw [← h4, List.take_length] at hf
     have heq : c' = { c0 with fbacked := c'.fbacked } := by
       have hbk : c'.backed = c0.backed := by rw [hs.backed, hb]
       have hx := hs.exec
@@ -495,13 +509,12 @@ example : (leftOver ⟨["I"], [(⟨2, 0, 0⟩, [])], [(false, false)], [], 0, fa
       (parseTextN (fun _ => 0) ⟨["I"], [(⟨2, 0, 0⟩, [])], [(false, false)], [], 0, false, [], none⟩ [.reg "Z" (.plain ⟨4, 0, 0⟩), .fail]).ctx).names = ["Z"] := by decide
 
 /-- **later_parse_independent_of_rejected** (the simulation `parseText c' ≈ parseText c0`). For EVERY idle, coherent,
-aligned context `c0`, EVERY rejected text `R` that completes no redefinition of a pre-existing function (the recorded
-finding region) and EVERY later text `T` that does not mention a name or a function that only `R` introduced: the outcome of
+aligned context `c0`, EVERY rejected text `R` (complete redefinitions of pre-existing functions included: they are
+reverted) and EVERY later text `T` that does not mention a name or a function that only `R` introduced: the outcome of
 `T` in the disturbed context is the outcome of `T` in `c0` — same verdict — with `R`'s left-over slots inserted behind the
 old ones (`lift`): nothing else differs, whatever `_backed` held. -/
 theorem later_parse_independent_of_rejected (H : Decl → Nat) (c0 c' : Ctx) (R T : Text)
     (hidle : c0.idle = true) (hcoh : c0.coherent H = true) (hal : c0.aligned)
-    (hno : redefinitionCompleted H c0 (St.init c0) (compile H (St.init c0) R) = false)
     (hrej : parseTextN H c0 R = .reject c')
     (hT : T.all (NEv.avoids (leftOver c0 c')) = true) :
     ∃ g, parseTextN H c' T = (parseTextN H c0 T).map (lift (leftOver c0 c') g) := by
@@ -511,7 +524,7 @@ theorem later_parse_independent_of_rejected (H : Decl → Nat) (c0 c' : Ctx) (R 
   have hrej' := hrej
   rw [parseTextN_eq hal] at hrej'
   have hs := reject_restores_symbols H c0 c' _ hidle hcoh hrej'
-  have hfn := reject_restores_functions_partial H c0 c' _ hno hrej'
+  have hfn := reject_restores_functions_spec H c0 c' _ hrej'
   have hc' := leftOver_lift hidle hs hfn hal
   have hx : (leftOver c0 c').wf := by
     constructor
@@ -526,7 +539,6 @@ theorem later_parse_independent_of_rejected (H : Decl → Nat) (c0 c' : Ctx) (R 
 are the same after `T`, with or without `R`. -/
 theorem later_parse_same_verdict_and_tables (H : Decl → Nat) (c0 c' : Ctx) (R T : Text)
     (hidle : c0.idle = true) (hcoh : c0.coherent H = true) (hal : c0.aligned)
-    (hno : redefinitionCompleted H c0 (St.init c0) (compile H (St.init c0) R) = false)
     (hrej : parseTextN H c0 R = .reject c')
     (hT : T.all (NEv.avoids (leftOver c0 c')) = true) :
     (parseTextN H c' T).ok = (parseTextN H c0 T).ok ∧
@@ -536,7 +548,7 @@ theorem later_parse_same_verdict_and_tables (H : Decl → Nat) (c0 c' : Ctx) (R 
     (parseTextN H c' T).ctx.fns.take c0.fns.length = (parseTextN H c0 T).ctx.fns.take c0.fns.length ∧
     (parseTextN H c' T).ctx.exec = (parseTextN H c0 T).ctx.exec ∧
     (parseTextN H c' T).ctx.idle = (parseTextN H c0 T).ctx.idle := by
-  obtain ⟨g, h⟩ := later_parse_independent_of_rejected H c0 c' R T hidle hcoh hal hno hrej hT
+  obtain ⟨g, h⟩ := later_parse_independent_of_rejected H c0 c' R T hidle hcoh hal hrej hT
   have hfit : Fits (leftOver c0 c') c0 := ⟨Nat.le_refl _, hal, Nat.le_refl _⟩
   have hx : (leftOver c0 c').wf := by
     have hal' : c'.aligned := by
@@ -578,6 +590,46 @@ example : exLaterCtx.idle = true ∧ exLaterCtx.coherent (fun _ => 0) = true ∧
     (parseTextN (fun _ => 0) (parseTextN (fun _ => 0) exLaterCtx exLaterR).ctx exLaterT).ctx.names = ["I", "X", "Z", "J"] ∧
     (parseTextN (fun _ => 0) exLaterCtx exLaterT).ctx.names = ["I", "X", "J"] := by decide
 
+/-- **reject_restores_functions_statement_level.** The same for a text given by its statement heads (names, raw clause
+entries), for EVERY aligned context: a rejected text leaves the function table exactly as it found it. -/
+theorem reject_restores_functions_statement_level (H : Decl → Nat) (c0 c' : Ctx) (R : Text) (hal : c0.aligned)
+    (hrej : parseTextN H c0 R = .reject c') : c'.fns = c0.fns := by
+  rw [parseTextN_eq hal] at hrej
+  exact reject_restores_functions H c0 c' _ hrej
+
+/-- a rejected text leaves no function among its left-overs -/
+theorem leftOver_no_function (H : Decl → Nat) (c0 c' : Ctx) (R : Text) (hal : c0.aligned)
+    (hrej : parseTextN H c0 R = .reject c') : (leftOver c0 c').fns = [] := by
+  simp only [leftOver, reject_restores_functions_statement_level H c0 c' R hal hrej, List.drop_length]
+
+/-- **later_parse_same_function_table.** After a rejected text `R` (ANY: new declarations, complete redefinitions, failed
+ones) a later text `T` that avoids the names `R` left behind ends with the SAME function table — all of it, not only the
+pre-existing prefix — as without `R`. -/
+theorem later_parse_same_function_table (H : Decl → Nat) (c0 c' : Ctx) (R T : Text)
+    (hidle : c0.idle = true) (hcoh : c0.coherent H = true) (hal : c0.aligned)
+    (hrej : parseTextN H c0 R = .reject c')
+    (hT : T.all (NEv.avoids (leftOver c0 c')) = true) :
+    (parseTextN H c' T).ok = (parseTextN H c0 T).ok ∧ (parseTextN H c' T).ctx.fns = (parseTextN H c0 T).ctx.fns := by
+  obtain ⟨g, h⟩ := later_parse_independent_of_rejected H c0 c' R T hidle hcoh hal hrej hT
+  have hnf := leftOver_no_function H c0 c' R hal hrej
+  rw [h]
+  cases parseTextN H c0 T with
+  | accept c1 => exact ⟨rfl, by simp only [Outcome.map, Outcome.ctx, lift, hnf, ins_nil]⟩
+  | reject c1 => exact ⟨rfl, by simp only [Outcome.map, Outcome.ctx, lift, hnf, ins_nil]⟩
+
+/-- satisfiable, non-trivially: `R` redefines `F` COMPLETELY, declares a new `K`, then fails; `T` declares its own `K` and
+redefines `G`: with and without `R` the table after `T` is `F`(old), `G`(new), `K`(T's) -/
+def exRedefR : Text := [.fnBegin "F" 1 200, .leave, .fnBegin "K" 0 201, .leave, .reg "Z" (.plain ⟨4, 0, 0⟩), .fail]
+def exRedefT : Text := [.fnBegin "K" 0 300, .leave, .fnBegin "G" 1 301, .leave]
+
+example : (parseTextN (fun _ => 0) exLaterCtx exRedefR).ok = false ∧
+    (parseTextN (fun _ => 0) exLaterCtx exRedefR).ctx.fns = exLaterCtx.fns ∧
+    exRedefT.all (NEv.avoids (leftOver exLaterCtx (parseTextN (fun _ => 0) exLaterCtx exRedefR).ctx)) = true ∧
+    (parseTextN (fun _ => 0) (parseTextN (fun _ => 0) exLaterCtx exRedefR).ctx exRedefT).ctx.fns =
+      [⟨"F", 1, 100, true⟩, ⟨"G", 1, 301, true⟩, ⟨"K", 0, 300, true⟩] ∧
+    (parseTextN (fun _ => 0) exLaterCtx exRedefT).ctx.fns =
+      [⟨"F", 1, 100, true⟩, ⟨"G", 1, 301, true⟩, ⟨"K", 0, 300, true⟩] := by decide
+
 /-- The hypothesis "T does not mention what only R introduced" is needed — this is the property's "(Names that only the
 rejected text introduced are outside the guarantee.)": `$z = 1; y = ;` is rejected and leaves the type-safe `$Z` integer;
 `$z = "a";`, valid before, is then refused with TYPE_MISMATCH. -/
@@ -614,13 +666,12 @@ example : (leftOver exLaterCtx (parseTextN (fun _ => 0) exLaterCtx exLaterR).ctx
     (leftOver exLaterCtx (parseTextN (fun _ => 0) exLaterCtx exLaterR).ctx).tds.length = 1 ∧
     (leftOver exLaterCtx (parseTextN (fun _ => 0) exLaterCtx exLaterR).ctx).n0 ≤ exLaterCtx.names.length := by decide
 
-/-- **history_without_rejected.** For EVERY history `R :: post` submitted to an idle, coherent, aligned context, `R` rejected
-(outside the finding region), `post` ANY sequence of texts — valid ones, rejected ones, declarations, calls — that do not
+/-- **history_without_rejected.** For EVERY history `R :: post` submitted to an idle, coherent, aligned context, `R` rejected,
+`post` ANY sequence of texts — valid ones, rejected ones, declarations, calls — that do not
 mention what only `R` introduced: every text of `post` gets the verdict it gets without `R`, and the final context is the
 final context without `R` plus `R`'s left-over slots. -/
 theorem history_without_rejected (H : Decl → Nat) (c0 c' : Ctx) (R : Text) (post : List Text)
     (hidle : c0.idle = true) (hcoh : c0.coherent H = true) (hal : c0.aligned)
-    (hno : redefinitionCompleted H c0 (St.init c0) (compile H (St.init c0) R) = false)
     (hrej : parseTextN H c0 R = .reject c')
     (hpost : post.all (fun t => t.all (NEv.avoids (leftOver c0 c'))) = true) :
     (runHistory H c0 (R :: post)).1 = false :: (runHistory H c0 post).1 ∧
@@ -631,7 +682,7 @@ theorem history_without_rejected (H : Decl → Nat) (c0 c' : Ctx) (R : Text) (po
   have hrej' := hrej
   rw [parseTextN_eq hal] at hrej'
   have hs := reject_restores_symbols H c0 c' _ hidle hcoh hrej'
-  have hfn := reject_restores_functions_partial H c0 c' _ hno hrej'
+  have hfn := reject_restores_functions_spec H c0 c' _ hrej'
   have hc' := leftOver_lift hidle hs hfn hal
   have hx : (leftOver c0 c').wf := by
     constructor
@@ -669,13 +720,12 @@ example : exLaterCtx.idle = true ∧ (parseTextN (fun _ => 0) exLaterCtx exLater
 /-! ## behaviour after a reject (Model/Session.lean: parse-time tables + the interpreter model's state) -/
 
 /-- **reject_then_run_eq_run.** For EVERY session (parse-time tables idle, coherent, aligned; ANY variables, output,
-declarations), EVERY rejected text `R` outside the finding region and EVERY later text `T` (context effects `T.eff`,
+declarations), EVERY rejected text `R` and EVERY later text `T` (context effects `T.eff`,
 program `T.prog`) that does not mention what only `R` introduced: submitting `T` after `R` gives the same verdict and,
 when accepted, the SAME `Interp` run (outcome, returned value, every variable, the whole output) as submitting `T`
 without `R`; the declarations are the same and the parse-time tables differ by `R`'s left-over slots only. -/
 theorem reject_then_run_eq_run (H : Decl → Nat) (fuel : Nat) (s : Session.Sess) (R T : Session.Sub) (c' : Ctx)
     (hidle : s.pc.idle = true) (hcoh : s.pc.coherent H = true) (hal : s.pc.aligned)
-    (hno : redefinitionCompleted H s.pc (St.init s.pc) (compile H (St.init s.pc) R.eff) = false)
     (hrej : parseTextN H s.pc R.eff = .reject c')
     (hT : T.eff.all (NEv.avoids (leftOver s.pc c')) = true) :
     (Session.submit H fuel s R).2 = none ∧
@@ -685,7 +735,7 @@ theorem reject_then_run_eq_run (H : Decl → Nat) (fuel : Nat) (s : Session.Sess
     (Session.submit H fuel (Session.submit H fuel s R).1 T).1.decls = (Session.submit H fuel s T).1.decls ∧
     ∃ g, (Session.submit H fuel (Session.submit H fuel s R).1 T).1.pc
       = lift (leftOver s.pc c') g (Session.submit H fuel s T).1.pc := by
-  obtain ⟨g, h⟩ := later_parse_independent_of_rejected H s.pc c' R.eff T.eff hidle hcoh hal hno hrej hT
+  obtain ⟨g, h⟩ := later_parse_independent_of_rejected H s.pc c' R.eff T.eff hidle hcoh hal hrej hT
   have hs1 : Session.submit H fuel s R = ({ s with pc := c' }, none) := by
     simp only [Session.submit, hrej]
   rw [hs1]
@@ -706,6 +756,26 @@ example : (Session.submit (fun _ => 0) 1000 exSess exSubR).2.isNone = true ∧
   constructor
   · decide
   · rfl
+
+/-- **session_reject_leaves_no_declaration.** In a session, a rejected text changes neither the function table of the
+context, nor the declarations behind it, nor any value or output: accepted texts keep their declarations, rejected ones
+leave none. -/
+theorem session_reject_leaves_no_declaration (H : Decl → Nat) (fuel : Nat) (s : Session.Sess) (R : Session.Sub) (c' : Ctx)
+    (hal : s.pc.aligned) (hrej : parseTextN H s.pc R.eff = .reject c') :
+    (Session.submit H fuel s R).2 = none ∧ (Session.submit H fuel s R).1.pc.fns = s.pc.fns ∧
+    (Session.submit H fuel s R).1.decls = s.decls ∧ (Session.submit H fuel s R).1.rt = s.rt := by
+  have hs1 : Session.submit H fuel s R = ({ s with pc := c' }, none) := by
+    simp only [Session.submit, hrej]
+  rw [hs1]
+  exact ⟨rfl, reject_restores_functions_statement_level H s.pc c' R.eff hal hrej, rfl, rfl⟩
+
+/-- … and an accepted one keeps them: table and declarations grow together -/
+example : (Session.submit (fun _ => 0) 1000 exSess ⟨exRedefR, []⟩).1.pc.fns = exLaterCtx.fns ∧
+    (Session.submit (fun _ => 0) 1000 exSess ⟨exRedefT, []⟩).1.pc.fns =
+      [⟨"F", 1, 100, true⟩, ⟨"G", 1, 301, true⟩, ⟨"K", 0, 300, true⟩] := by
+  constructor
+  · decide
+  · decide
 
 /-! ## seeded/C09-m3 seen by the flag model
 
@@ -759,20 +829,18 @@ example : exLaterCtx.idle = true ∧ exLaterCtx.coherent (fun _ => 0) = true ∧
     (runHistory (fun _ => 0) exLaterCtx [exLaterR, exLaterT]).2.idle = true := by decide
 
 /-- **history_without_rejected_anywhere.** For EVERY history `pre ++ R :: post` submitted to an idle, coherent, aligned
-context — `pre` ANY texts (accepted, rejected, declarations, redefinitions), `R` rejected in the context `pre` leads to and
-outside the finding region there, `post` ANY texts not mentioning what only `R` introduced —: every other text gets the
+context — `pre` ANY texts (accepted, rejected, declarations, redefinitions), `R` rejected in the context `pre` leads to,
+`post` ANY texts not mentioning what only `R` introduced —: every other text gets the
 verdict it gets in the history without `R`, and the final context is the one without `R` plus `R`'s left-over slots. -/
 theorem history_without_rejected_anywhere (H : Decl → Nat) (c c' : Ctx) (pre post : List Text) (R : Text)
     (hidle : c.idle = true) (hcoh : c.coherent H = true) (hal : c.aligned)
-    (hno : redefinitionCompleted H (runHistory H c pre).2 (St.init (runHistory H c pre).2)
-      (compile H (St.init (runHistory H c pre).2) R) = false)
     (hrej : parseTextN H (runHistory H c pre).2 R = .reject c')
     (hpost : post.all (fun t => t.all (NEv.avoids (leftOver (runHistory H c pre).2 c'))) = true) :
     (runHistory H c (pre ++ R :: post)).1 = (runHistory H c pre).1 ++ false :: (runHistory H (runHistory H c pre).2 post).1 ∧
     (runHistory H c (pre ++ post)).1 = (runHistory H c pre).1 ++ (runHistory H (runHistory H c pre).2 post).1 ∧
     ∃ g, (runHistory H c (pre ++ R :: post)).2 = lift (leftOver (runHistory H c pre).2 c') g (runHistory H c (pre ++ post)).2 := by
   obtain ⟨i1, i2, i3⟩ := runHistory_invariants H c pre hidle hcoh hal
-  obtain ⟨hv, g, hc⟩ := history_without_rejected H (runHistory H c pre).2 c' R post i1 i2 i3 hno hrej hpost
+  obtain ⟨hv, g, hc⟩ := history_without_rejected H (runHistory H c pre).2 c' R post i1 i2 i3 hrej hpost
   rw [runHistory_append, runHistory_append]
   simp only
   rw [hv, hc]
@@ -786,15 +854,14 @@ example : (runHistory (fun _ => 0) exLaterCtx ([exLaterT] ++ exLaterR :: [exLate
 
 /-! ## whole histories, run time included -/
 
-/-- **session_history_without_rejected.** For EVERY session and EVERY history `R :: post` of submitted texts, `R` rejected
-(outside the finding region), `post` ANY texts that do not mention what only `R` introduced: every text of `post` has the
+/-- **session_history_without_rejected.** For EVERY session and EVERY history `R :: post` of submitted texts, `R` rejected,
+`post` ANY texts that do not mention what only `R` introduced: every text of `post` has the
 verdict and — when accepted — exactly the `Interp` run (outcome, returned value, variables, output so far) it has in the
 history without `R`; the final variables, output and declarations are the same; the parse-time tables differ by `R`'s
 left-over slots. -/
 theorem session_history_without_rejected (H : Decl → Nat) (fuel : Nat) (s : Session.Sess) (R : Session.Sub)
     (post : List Session.Sub) (c' : Ctx)
     (hidle : s.pc.idle = true) (hcoh : s.pc.coherent H = true) (hal : s.pc.aligned)
-    (hno : redefinitionCompleted H s.pc (St.init s.pc) (compile H (St.init s.pc) R.eff) = false)
     (hrej : parseTextN H s.pc R.eff = .reject c')
     (hpost : post.all (fun t => t.eff.all (NEv.avoids (leftOver s.pc c'))) = true) :
     (Session.submitAll H fuel s (R :: post)).1 = none :: (Session.submitAll H fuel s post).1 ∧
@@ -807,7 +874,7 @@ theorem session_history_without_rejected (H : Decl → Nat) (fuel : Nat) (s : Se
   have hrej' := hrej
   rw [parseTextN_eq hal] at hrej'
   have hs := reject_restores_symbols H s.pc c' _ hidle hcoh hrej'
-  have hfn := reject_restores_functions_partial H s.pc c' _ hno hrej'
+  have hfn := reject_restores_functions_spec H s.pc c' _ hrej'
   have hc' := leftOver_lift hidle hs hfn hal
   have hx : (leftOver s.pc c').wf := by
     constructor
